@@ -1,8 +1,24 @@
 # Table read by gen_manifest.py.  CLAIMED: id -> (technique, level text, DESIGN.md ref)
+IT = "typestate/dataflow over go/cfg + symbolic WaitGroup accounting on the iterator protocol (IT-1..6)"
 CLAIMED = {
- "C16": ("AST/type lint: combinator results must be used (MU)",
-         "Decides structural clauses of C16 on every function of the program: results of value-semantic combinators (ChainWorkers, And/Or/Not, iterator stages) are never discarded. Necessary conditions only.",
+ "C01": (IT + "; chunk numbering pass-through",
+         "Decides the structural clause of C01 that chunks keep their number through the parsers (exactly one push per chunk on every path), that every reader stream is closed exactly once after its last push and that order-erasing consumers read a sorted stream. Necessary conditions only; byte-level parsing is not decided.",
+         "DESIGN.md §4 C01"),
+ "C03": (IT + "; re-sequencer drain parity (W-1); combinator results used (MU)",
+         "Decides on every iterator creation site of the program (47) the lifecycle, producer accounting, exactly-one-Done, gap-free 0,1,2,... numbering and sorted-before-renumber clauses of C03 on every control-flow path. Necessary conditions of 'exactly once, in order, terminates'; slicing arithmetic and deadlock freedom are not decided.",
+         "DESIGN.md §4 C03"),
+ "C04": ("re-sequencer shape comparison (W-1), iterator protocol typestate (IT), writer registration/wait typestate (WE-2/3)",
+         "Decides that the in-order branch and the drain loop of every writer's re-sequencing buffer perform the same emission with a counter incremented once per emission, that writer front-ends follow the iterator protocol and that the process waits for registered writers. Well-formedness of formatted records is trusted to go-json/encoding/csv.",
+         "DESIGN.md §4 C04"),
+ "C06": (IT + " on the dereplication pipeline",
+         "Decides lifecycle/numbering clauses of the obichunk/obiuniq streams (including the recursive producer registration). The accounting identity over a data set is not decided.",
+         "DESIGN.md §4 C06"),
+ "C16": ("AST/type lint: combinator results must be used (MU); iterator protocol on DivideOn/Distribute/PairTo (IT)",
+         "Decides structural clauses of C16 on every function of the program: results of value-semantic combinators (ChainWorkers, And/Or/Not, iterator stages) are never discarded; the routing combinators number and close their outputs correctly. Necessary conditions only.",
          "DESIGN.md §4 C16"),
+ "C18": ("error-disposition dataflow on output sinks (WE-1), must-pass-through typestate with interprocedural summaries (WE-2), writer registration typestate (WE-3), drain parity (W-1)",
+         "Decides that every Write/Flush/Close on the output path has its error consumed (fatal, returned or merged into a returned error) on all writers and in Wfile, that every main waits for every writer it may have started, and that writer goroutines unregister after their last write. Does not decide that the OS reports the failure.",
+         "DESIGN.md §4 C18"),
 }
 NA = {
  "C08": "every clause is an arithmetic identity over DP cells and read contents; no clause is visible in the shape of the code (DESIGN.md §5)",
